@@ -175,7 +175,7 @@ def check(g, directed, t, E, sel, cfg):
                     return False
                 if sorted(g.predecessors(n, t)) != pred[n] or sorted(g.predecessors_iter(n, t)) != pred[n]:
                     return False
-                if list(dn.all_neighbors(g, n, t)) != list(g.predecessors(n, t)) + list(g.successors(n, t)):
+                if sorted(dn.all_neighbors(g, n, t)) != sorted(pred[n] + succ[n]):     # a reciprocal neighbour twice
                     return False
                 alln = set(succ[n]) | set(pred[n])
             else:
